@@ -169,7 +169,18 @@ func H19_principals() {
 	if t == 6 {
 		return // deprecated, unnamed value: not a "known type" of the statement
 	}
+	orig := append([]string(nil), prins...)
+	vFreeze("C19.principal-list-argument-not-modified", prins)
 	got := GetPrincipals(prins, t)
+	vCheckFrozen()
+	vThaw()
+	// a second evaluation over the same list gives the same answer
+	again := GetPrincipals(prins, t)
+	vAssert(len(again) == len(got), "C19.principals-same-answer-for-the-same-list")
+	for i := 0; i < len(got) && i < len(again); i++ {
+		vAssert(vEqString(again[i], got[i]), "C19.principals-same-answer-for-the-same-list")
+	}
+	prins = orig
 	switch t {
 	case UnknownCertType:
 		vAssert(got == nil, "C19.principals-withheld")
